@@ -655,7 +655,7 @@ func Run(tier string) int {
 	log.SetOutput(io.Discard)
 	rep := mc.NewReporter("C08", tier, "model_checking")
 	rep.Driver = "c08"
-	budget := 80 * time.Second
+	budget := 120 * time.Second
 	if tier == "thorough" {
 		budget = 13 * time.Minute
 	}
